@@ -568,3 +568,6 @@ def run(c, facts):
     # of an accessor (`XferDomain::inner`): a parseable text panics in a later phase
     c.run(lambda c: grammar.agree(c, facts, 'C04.R13', floor=12))
     panic_census(c, facts)
+
+
+EXPLANATION += ' (R19) CHANGE-IN-ORDER (shared C15.R4): the edits of one didChange are converted and applied one after the other, so String::replace_range never meets a stale offset.'
